@@ -26,6 +26,8 @@
 extern "C" {
 #include <eav.h>
 int eav_cli_main(int argc, char **argv);
+// independent copy of the library (own decoder), every global renamed ref_*: the reference model's oracle
+void ref_eav_init(eav_t *); int ref_eav_setup(eav_t *); int ref_eav_is_email(eav_t *, const char *, size_t); const char *ref_eav_errstr(eav_t *);
 FILE *__real_fopen(const char *, const char *);
 }
 
@@ -266,8 +268,8 @@ struct Expect { bool pass; string echo; bool exact; string err; size_t end_off; 
 static eav_t g_ref; static bool g_ref_ready = false;
 static void ref_ready() {
     if (g_ref_ready) return;
-    eav_init(&g_ref);
-    if (eav_setup(&g_ref) != 0) { fprintf(stderr, "reference eav_setup failed\n"); _Exit(72); }
+    ref_eav_init(&g_ref);
+    if (ref_eav_setup(&g_ref) != 0) { fprintf(stderr, "reference eav_setup failed\n"); _Exit(72); }
     g_ref_ready = true;
 }
 
@@ -305,8 +307,8 @@ static vector<Expect> model_file(const string &data, std::set<string> *shapes) {
         if (!t.empty() && t[0] == ' ') t.erase(0, 1);
         if (!t.empty() && (t.back() == ' ' || t.back() == '\t')) t.pop_back();
         Expect e; e.end_off = end; e.echo = t; e.exact = utf8_wellformed_noctrl(t);
-        e.pass = eav_is_email(&g_ref, t.c_str(), t.size()) != 0;
-        const char *m = eav_errstr(&g_ref); e.err = m ? m : "(null)";
+        e.pass = ref_eav_is_email(&g_ref, t.c_str(), t.size()) != 0;
+        const char *m = ref_eav_errstr(&g_ref); e.err = m ? m : "(null)";
         e.shape = line_shape(raw, t, term);
         if (shapes) shapes->insert(e.shape);
         out.push_back(e);
@@ -329,6 +331,7 @@ struct Exec {
     const Plan &plan; bool want_log;
     vector<string> log; uint64_t h = SIM_FNV_INIT; vector<Viol> viols;
     bool nontrivial = false, any_fault_fired = false;
+    vector<string> outs;            // captured stdout per invocation (for the fidelity cross-check)
     Exec(const Plan &p, bool l) : plan(p), want_log(l) {}
     void rec(const string &s) { h = sim_fnv1a(h, s.data(), s.size()); h = sim_fnv1a(h, "\n", 1); if (want_log) log.push_back(s); ST.steps++; }
     void viol(const string &c, const string &d) { Viol v; v.cls = c; v.detail = d; viols.push_back(v); rec("VIOLATION " + c + " | " + d); }
@@ -399,6 +402,7 @@ struct Exec {
         if (!iv.of_kind.empty()) { ST.fault_out_attached++; if (sim.of_fired) { ST.fault_out_fired++; any_fault_fired = true; } }
         ST.allocs += g_allocs; g_allocs = 0; g_frees = 0;
         g_live = nullptr;
+        outs.push_back(sim.out);
         if (!dead) { fclose(sim.cap_out); fclose(sim.cap_err); }
         S = nullptr;
         return dead == 0;
@@ -551,7 +555,15 @@ static Op gen_line(sim_rng &r, unsigned longw) {
     else if (c < 72) op.s = " " + g_addr[sim_below(&r, g_addr.size())] + " ";
     else if (c < 80) op.s = bad_utf8(r);
     else if (c < 85) { op.s = g_addr[sim_below(&r, g_addr.size())]; size_t p = sim_below(&r, op.s.size() + 1); op.s.insert(p, 1, (char)(1 + sim_below(&r, 31))); }
-    else if (c < 88) { op.s = rnd_ascii(r, sim_below(&r, 10)) + "\r" + rnd_ascii(r, sim_below(&r, 10)); }
+    else if (c < 88) {   // CR that is not part of a CRLF terminator: inside, at the very end (matters when the line has no LF), doubled, alone
+        unsigned v = (unsigned)sim_below(&r, 6);
+        if (v == 0) op.s = rnd_ascii(r, sim_below(&r, 10)) + "\r" + rnd_ascii(r, 1 + sim_below(&r, 10));
+        else if (v == 1) op.s = g_addr[sim_below(&r, g_addr.size())] + "\r";
+        else if (v == 2) op.s = "\r";
+        else if (v == 3) op.s = g_addr[sim_below(&r, g_addr.size())] + "\r\r";
+        else if (v == 4) op.s = "\r" + g_addr[sim_below(&r, g_addr.size())];
+        else op.s = g_addr[sim_below(&r, g_addr.size())] + " \r";
+    }
     else if (c < 90) { op.s = rnd_ascii(r, sim_below(&r, 8)) + string(1, '\0') + rnd_ascii(r, sim_below(&r, 8)); }
     else if (c < 93) { op.s = rnd_utf8(r, 1 + sim_below(&r, 40)) + "@" + rnd_utf8(r, 1 + sim_below(&r, 20)) + ".ru"; }
     else if (c < 100) { op.s = rnd_ascii(r, 1 + sim_below(&r, 20)) + "\x7f" + rnd_ascii(r, sim_below(&r, 5)); }
@@ -692,6 +704,22 @@ int main(int argc, char **argv) {
     if (mode == "gen") {
         Plan p = gen_plan(cfg, seed, strtoll(arg(argc, argv, "--index", "0"), nullptr, 10));
         printf("%s\n", sj::dump(plan_to_json(p)).c_str()); return 0;
+    }
+    if (mode == "dump") {       // write the files of a plan and the stdout the in-process tool produced for them
+        string dir = arg(argc, argv, "--outdir", ".");
+        Plan p = gen_plan(cfg, seed, strtoll(arg(argc, argv, "--index", "0"), nullptr, 10));
+        Exec ex(p, false); ex.run();
+        vector<SInv> inv = structure(p);
+        for (size_t i = 0; i < inv.size() && i < ex.outs.size(); i++) {
+            for (size_t f = 0; f < inv[i].files.size(); f++) {
+                FILE *fh = __real_fopen((dir + "/inv" + std::to_string(i) + "_f" + std::to_string(f) + ".txt").c_str(), "wb");
+                if (fh) { fwrite(inv[i].files[f].data.data(), 1, inv[i].files[f].data.size(), fh); fclose(fh); }
+            }
+            FILE *fo = __real_fopen((dir + "/inv" + std::to_string(i) + ".out").c_str(), "wb");
+            if (fo) { fwrite(ex.outs[i].data(), 1, ex.outs[i].size(), fo); fclose(fo); }
+        }
+        printf("%zu %zu %d\n", inv.size(), ex.outs.size(), (int)ex.viols.size());
+        return ex.viols.empty() ? 0 : 1;
     }
     if (mode == "run") {
         long long start = strtoll(arg(argc, argv, "--start", "0"), nullptr, 10), stride = strtoll(arg(argc, argv, "--stride", "1"), nullptr, 10);
